@@ -158,6 +158,8 @@ pub fn fault_name(k: &FaultKind) -> &'static str {
         FaultKind::RemoveEmptyFooter => "RemoveEmptyFooter",
         FaultKind::Relabel { .. } => "Relabel",
         FaultKind::SigNegateS => "SigNegateS",
+        FaultKind::SigFill { .. } => "SigFill",
+        FaultKind::FooterReplaceRaw { .. } => "FooterReplaceRaw",
         FaultKind::RandomEdit { .. } => "RandomEdit",
         FaultKind::AlphabetSwap { .. } => "AlphabetSwap",
         FaultKind::RotateMsgTailToFooter { .. } => "RotateMsgTailToFooter",
@@ -798,6 +800,18 @@ fn step(cx: &mut Ctx, idx: usize, op: &Op, ob: &Obs) {
                 // the text itself is not known to the model (the executor holds it): deliveries look it up by id
                 cx.msgs.insert(*out, MsgInfo { text: format!("<foreign:{}>", out), root: None, faults: vec![], foreign: Some((*proto, *key, utf8, footer.clone(), assertion.clone())) });
             }
+        }
+        (Op::RecoverKey { slot, .. }, Obs::RecoverKey { public_hex }) => {
+            cx.j.trace.push(format!("recover_key:{}", public_hex.is_some()));
+            if let Some(bytes) = public_hex.as_ref().and_then(|h| hex::decode(h).ok()) {
+                cx.j.fire("RecoveredAlternateKey");
+                if *slot < cx.keys.len() {
+                    cx.keys[*slot] = KeyMat::RawPublic(bytes);
+                }
+            }
+        }
+        (Op::ScriptEntropy { .. }, Obs::Scripted) => {
+            cx.j.fire("EntropyReplayedFromRecording");
         }
         (Op::DrawKeys { n }, Obs::Draws { ok, failed, distinct, constant_positions, worst_bit_dev_centisigma }) => {
             cx.j.trace.push(format!("draw_keys:{}", n));
@@ -1456,6 +1470,13 @@ fn judge_deliver(
                     let ok = t.outcome.is_ok() && content_matches(&root.content, &t.outcome);
                     cx.clause(pp, "clean_delivery_returns_exact_message", idx, ok, "Ok(exactly the original message) (fresh parser)", describe_mismatch(&root.content, &t.outcome), &[("proto", root.proto.name().into())]);
                 }
+                // the "if" half of C05 / C06 (accept IFF the same footer / assertion is supplied)
+                if root.footer.as_deref().map_or(false, |f| !f.is_empty()) {
+                    cx.clause("C05", "matching_footer_accepted", idx, ok, "accepted with the original content when exactly the token's footer is supplied", out.short(), &[("proto", root.proto.name().into()), ("layer", format!("{:?}", v.layer)), ("ascii", root.footer.as_deref().unwrap_or("").is_ascii().to_string())]);
+                }
+                if root.proto.has_assertion() && root.assertion.as_deref().map_or(false, |a| !a.is_empty()) {
+                    cx.clause("C06", "matching_assertion_accepted", idx, ok, "accepted with the original content when exactly the token's assertion is supplied", out.short(), &[("proto", root.proto.name().into()), ("layer", format!("{:?}", v.layer))]);
+                }
             }
             _ => {
                 cx.unjudged(pp, "outside_validity_window");
@@ -2008,6 +2029,26 @@ fn finish(cx: &mut Ctx) {
             }
             cx.clause("C10", "nonce_bits_unbiased", last, worst <= bound, &format!("|ones - N/2| <= 10*sqrt(N)/2 = {:.1} for every bit", bound), format!("bit {} deviates by {:.1} over {} builds", worst_bit, worst, n), &[("proto", proto.name().into())]);
             cx.j.probe("nonce_statistics_evaluated");
+            // value coverage: with N >= 16384 uniform samples a given byte value is absent from a given position
+            // with probability (255/256)^N <= e^-64; over 32 positions x 256 values that is < 2^-64 per history
+            if n >= 16_384 {
+                let mut missing: Option<(usize, usize)> = None;
+                let mut nmissing = 0usize;
+                for p in 0..len {
+                    let mut seen = [false; 256];
+                    for x in list.iter() {
+                        seen[x.1[p] as usize] = true;
+                    }
+                    for (v, s) in seen.iter().enumerate() {
+                        if !*s {
+                            nmissing += 1;
+                            missing = Some((p, v));
+                        }
+                    }
+                }
+                cx.clause("C10", "every_byte_value_occurs_at_every_nonce_position", last, missing.is_none(), "all 256 values occur at every nonce byte position", format!("{} (position, value) pairs never occur over {} builds, e.g. {:?}", nmissing, n, missing), &[("proto", proto.name().into())]);
+                cx.j.probe("nonce_value_coverage_evaluated");
+            }
         }
     }
     // ---- C06 non-storage: same (key, nonce, message, footer), different assertion => same length
